@@ -18,7 +18,10 @@ from .. import c03_core as K
 PROPERTY = "C03"
 SALT = 0xC03
 RULE = ("valid encodings: cycle over all (prefix in {none + 15 PRE bytes}, opcode) pairs, second byte drawn from the "
-        "set the decoder accepts for that opcode, remaining operand bytes random/boundary, followed by NOPs; state: "
+        "set the decoder accepts for that opcode, remaining operand bytes random/boundary, followed by NOPs (1/2), another "
+        "encoding of the same (prefix, opcode) (1/4) or any valid encoding (1/4); plus encoding grids: every MVL/MVLD "
+        "(prefix, opcode, operand shape) with an internal block crossing (FF)->(00), every (prefix, opcode, mode byte) "
+        "with [r3++]/[--r3] and r3 in FFFFD..FFFFF resp. 1..3; state: "
         "gen_state registers (pointers interior 7/8, boundary 1/8), I in 1..24 for counted forms (thorough: 1/6 of "
         "them 1..300 incl. 255/256/257), BP/PX/PY chosen so that (n),(BP+n),(PX+n),(PY+n),(BP+PX),(BP+PY) are "
         "pairwise distinct for every internal operand, [(n)] cells hold generated pointers, memory = address hash. "
@@ -27,7 +30,8 @@ RULE = ("valid encodings: cycle over all (prefix in {none + 15 PRE bytes}, opcod
 
 ASSUMPTIONS = [
     "text is the specification: operands are parsed from token kinds/punctuation only; names inside ( ) are mapped through the README internal memory map",
-    "valid = accepted by the repository's decoder; instruction followed by NOP bytes; operands overlapping the code bytes are skipped",
+    "valid = accepted by the repository's decoder; the instruction is followed by NOPs or by another valid instruction (generated); the text is rendered from the instruction's own bytes + NOPs (the meaning of an encoding does not depend on the bytes after it: fusion() 'Bytes *after* instr1 ... must not affect instr1'); operands overlapping the 24 code bytes are skipped",
+    "address-space: every data access of a judged case must use a raw address inside [0, ADDRESS_SPACE_SIZE) = 00000..FFFFF + 100000..1000FF (constants.py; the strict memory of test_llama_parity_misc raises IndexError outside, PCE500Memory maps everything >= 100000h to internal memory, so such an access is a different byte than the denoted one under both project memory models); denoted locations are inside by construction (inputs that would leave it are skipped), sets are still compared after pycore.canon()",
     "sets, not multisets, of addresses are compared (the evaluator re-reads cells); instruction fetch is excluded by switching the read log off during Emulator.decode_instruction (+ the one opcode re-read)",
     "multi-byte operands that run off internal memory (FF->00) or the 1 MiB space, pointer+offset outside 0..FFFFF, indirect pointers with bits 20-23 set: README silent -> skipped (MVL/MVLD internal wrap is asserted: maintainers' tests)",
     "MVL (n),[--r3] with I>=2: README row says destination increments, tests MVL_(02)_[--X]_I5_X2000 say it decrements -> either accepted",
@@ -44,7 +48,12 @@ def _counts(ctx: Ctx) -> Dict[str, int]:
 
 def run(ctx: Ctx) -> Report:
     c = _counts(ctx)
-    tasks = [(PROPERTY, i, c["shards"], ctx.seed, c["per"], c["imax"], SALT) for i in range(c["shards"])]
+    tasks: List[Any] = [(PROPERTY, i, c["shards"], ctx.seed, c["per"], c["imax"], SALT) for i in range(c["shards"])]
+    # boundary grids over encodings (c03_gen.focus_heads): block moves crossing the end of internal memory, and
+    # [r3++] / [--r3] accesses that just fit at the top / bottom of the 1 MiB space
+    fs = 8
+    tasks += [(PROPERTY, i, fs, ctx.seed, ctx.pick(6, 24), 24, SALT, "blockwrap") for i in range(fs)]
+    tasks += [(PROPERTY, i, fs, ctx.seed, ctx.pick(1, 4), 24, SALT, "ptr-edge") for i in range(fs)]
     rep = ctx.merge_reports(ctx.pmap(K.explore_shard, tasks))
     rep.rule = RULE
     rep.assumptions = list(ASSUMPTIONS)
